@@ -25,7 +25,11 @@ theorem tinv_eioDisconnect (cfg : Cfg) (c : Cli) (r : Str) (h : TInv c) : TInv (
 theorem tinv_onLost (cfg : Cfg) (c : Cli) (h : TInv c) : TInv (onLost cfg c).1 := by
   unfold onLost
   split
-  · intro _; exact tinv_onEioDisconnect cfg c rTransport
+  · intro _
+    simp only
+    have h0 := tinv_onEioDisconnect cfg c rTransport
+    rcases startEffort_eq { (onEioDisconnect cfg c rTransport).1 with eio := .disconnected } with he | he <;>
+      rw [he] <;> exact h0
   · exact h
 
 theorem tinv_of_fields {c c' : Cli} (h : TInv c) (h1 : c'.eio = c.eio) (h2 : c'.binbuf = c.binbuf)
